@@ -52,13 +52,15 @@ IdlePass == [ active |-> FALSE, actor |-> "", target |-> "", oid |-> "", ouid |-
               sliceObjs |-> [ k \in Keys |-> <<>> ],
               sliceLoaded |-> {},
               apiErr |-> FALSE, calls |-> 0, status |-> Absent, statusWritten |-> FALSE,
-              finRemoved |-> FALSE ]
+              finRemoved |-> FALSE,
+              listed |-> <<>>, hasList |-> FALSE,       \* deployment controller: the ObjectSets it listed
+              clash |-> "" ]                             \* deployment controller: key whose Create hit AlreadyExists
 
 Init == /\ l = 1
         /\ store = [ k \in Keys |-> Absent ]
         /\ pass = [ p \in PassIds |-> IdlePass ]
         /\ lw = [ valid |-> FALSE, e |-> Trace[1] ]
-        /\ hist = [ succeeded |-> {}, archived |-> {} ]
+        /\ hist = [ succeeded |-> {}, archived |-> {}, creates |-> [ k \in Keys |-> 0 ] ]
         /\ scen = NoRow
 
 (* ---------------- helpers over a pass record ---------------- *)
@@ -66,6 +68,7 @@ Init == /\ l = 1
 IsSetActor(a)   == a \in {"os", "cos"}
 IsPhaseActor(a) == a \in {"ph", "cph"}
 IsOwnerActor(a) == IsSetActor(a) \/ IsPhaseActor(a)
+IsDepActor(a)   == a \in {"od", "cod"}
 
 Flatten(ss) == \* concatenation of a sequence of sequences
     LET F[i \in 0..Len(ss)] == IF i = 0 THEN <<>> ELSE F[i - 1] \o ss[i] IN F[Len(ss)]
@@ -123,6 +126,9 @@ Verdict(pr, k, o) ==
 
 (* ---------------- event consumption ---------------- *)
 
+\* key of the ObjectDeployment that controls ObjectSet o ("" if none) — the harness logs it as depKey
+DeploymentOf(o) == o.cr.depKey
+
 E == Trace[l]
 IsEv(name) == l <= Len(Trace) /\ E.ev = name
 Advance == l' = l + 1 /\ lw' = [ valid |-> TRUE, e |-> E ]
@@ -133,7 +139,7 @@ TrReset ==
     /\ IsEv("Reset")
     /\ store' = [ k \in Keys |-> Absent ]
     /\ pass' = [ p \in PassIds |-> IdlePass ]
-    /\ hist' = [ succeeded |-> {}, archived |-> {} ]
+    /\ hist' = [ succeeded |-> {}, archived |-> {}, creates |-> [ k \in Keys |-> 0 ] ]
     /\ scen' = NoRow
     /\ Advance
 
@@ -148,7 +154,12 @@ TrEnv ==
     /\ l <= Len(Trace) /\ E.actor = "env" /\ E.ev # "Crash"
     /\ E.pre = store[E.key]
     /\ SetStore(E.key, E.post)
-    /\ UNCHANGED <<pass, hist, scen>>
+    /\ hist' = IF E.pre.kind \in {"ObjectDeployment", "ClusterObjectDeployment"} /\ E.pre.cr.tmplHash # E.post.cr.tmplHash
+                 THEN [ hist EXCEPT !.creates[E.key] = 0 ]
+               ELSE IF E.pre.kind \in {"ObjectSet", "ClusterObjectSet"} /\ ~E.post.exists /\ DeploymentOf(E.pre) \in Keys
+                 THEN [ hist EXCEPT !.creates[DeploymentOf(E.pre)] = 0 ]
+               ELSE hist
+    /\ UNCHANGED <<pass, scen>>
     /\ Advance
 
 TrCrash ==
@@ -229,7 +240,9 @@ TrRead ==
 \* dynamic cache bookkeeping and list calls: no store effect
 TrOther ==
     /\ l <= Len(Trace) /\ E.actor \notin {"env", "sim"} /\ E.ev \in {"Watch", "Free", "List", "DynList"}
-    /\ pass' = [ pass EXCEPT ![E.actor].calls = @ + 1, ![E.actor].apiErr = @ \/ E.res # "ok" ]
+    /\ pass' = [ pass EXCEPT ![E.actor].calls = @ + 1, ![E.actor].apiErr = @ \/ E.res # "ok",
+                              ![E.actor].listed = IF E.ev = "List" /\ E.res = "ok" /\ IsDepActor(E.actor) THEN E.args.items ELSE @,
+                              ![E.actor].hasList = @ \/ (E.ev = "List" /\ E.res = "ok" /\ IsDepActor(E.actor)) ]
     /\ UNCHANGED <<store, hist, scen>>
     /\ Advance
 
@@ -246,7 +259,15 @@ TrWrite ==
        /\ (E.dry \/ (~ok /\ ~E.args.lost)) => E.post = E.pre         \* dry runs and failed calls have no effect
        /\ SetStore(k, IF E.res = "NoMatch" THEN store[k] ELSE E.post)
        /\ hist' = [ succeeded |-> IF E.post.exists /\ CondTrue(E.post.cr, "Succeeded") THEN hist.succeeded \cup {<<k, E.post.uid>>} ELSE hist.succeeded,
-                    archived  |-> IF E.post.exists /\ CondTrue(E.post.cr, "Archived") THEN hist.archived \cup {<<k, E.post.uid>>} ELSE hist.archived ]
+                    archived  |-> IF E.post.exists /\ CondTrue(E.post.cr, "Archived") THEN hist.archived \cup {<<k, E.post.uid>>} ELSE hist.archived,
+                    \* creates for the deployment's CURRENT template (a create issued from a stale snapshot of an older
+                                    \* template belongs to that older epoch and is judged by Inv_C07_CreateJustified only)
+                    creates   |-> IF IsDepActor(E.actor) /\ E.ev = "Create" /\ ~E.dry /\ E.post.exists /\ ~E.pre.exists /\ pr.hasSnap
+                                     /\ store[pr.target].exists /\ E.post.cr.tmplHash = store[pr.target].cr.tmplHash
+                                    THEN [ hist.creates EXCEPT ![pr.target] = @ + 1 ]
+                                  ELSE IF E.pre.exists /\ ~E.post.exists /\ E.pre.kind \in {"ObjectSet", "ClusterObjectSet"} /\ DeploymentOf(E.pre) \in Keys
+                                    THEN [ hist.creates EXCEPT ![DeploymentOf(E.pre)] = 0 ]
+                                  ELSE hist.creates ]
        /\ pass' = [ pass EXCEPT
              ![p].calls = @ + 1,
              ![p].apiErr = @ \/ ~ok,
@@ -264,6 +285,7 @@ TrWrite ==
              ![p].orev = IF k = pr.target /\ E.ev = "StatusUpdate" /\ @ = 0 THEN E.args.body.cr.revision ELSE @,
              ![p].status = IF k = pr.target /\ E.ev = "StatusUpdate" /\ ok THEN E.post ELSE @,
              ![p].statusWritten = @ \/ (k = pr.target /\ E.ev = "StatusUpdate" /\ ok),
+             ![p].clash = IF IsDepActor(pr.actor) /\ E.ev = "Create" /\ E.res = "AlreadyExists" THEN k ELSE @,
              ![p].finRemoved = @ \/ (k = pr.target /\ E.ev = "MergePatch" /\ ok /\ E.args.patch.setsFinalizers
                                      /\ "package-operator.run/cached" \notin Range(E.post.fin)) ]
     /\ UNCHANGED scen
@@ -534,6 +556,34 @@ Inv_C09_StillReports ==
               => CondTrue(PE.status.cr, "Paused")
        /\ IsPhaseActor(PE.actor) => CondTrue(PE.status.cr, "Paused")
 
+\* pausing an ObjectDeployment: no revision is created, archived or pruned while paused
+Inv_C09_DeploymentPausedNoRevisionChange ==
+    (lw.valid /\ IsDepActor(W.actor) /\ IsWrite(W.ev) /\ ~W.dry /\ PR.hasSnap /\ PR.snap.cr.paused
+       /\ W.ev \in {"Create", "Delete", "Update"} /\ W.key # PR.target)
+    => /\ W.ev = "Update"
+       /\ W.args.body.cr.lifecycle = "Paused" /\ W.args.body.cr.pausedByParent
+
+\* the deployment changes a revision's lifecycle only to pause it (marking it paused-by-parent when the
+\* deployment itself is paused), to release a revision that carries the paused-by-parent mark, or to archive it
+Inv_C09_ReleaseExactlyMarked ==
+    (lw.valid /\ IsDepActor(W.actor) /\ W.ev = "Update" /\ ~W.dry /\ PR.hasSnap /\ W.pre.exists
+       /\ W.pre.kind \in {"ObjectSet", "ClusterObjectSet"} /\ W.args.body.cr.lifecycle # W.pre.cr.lifecycle)
+    => \/ W.args.body.cr.lifecycle = "Active" /\ W.pre.cr.pausedByParent /\ ~PR.snap.cr.paused /\ ~W.args.body.cr.pausedByParent
+       \/ W.args.body.cr.lifecycle = "Paused" /\ (PR.snap.cr.paused <=> W.args.body.cr.pausedByParent)
+       \/ W.args.body.cr.lifecycle = "Archived" /\ ~PR.snap.cr.paused
+
+\* after an error-free pass of a paused deployment every non-archived revision it listed is paused by parent;
+\* after an error-free pass of an unpaused deployment no listed revision carries the mark any more
+Inv_C09_Propagation ==
+    (lw.valid /\ W.ev = "PassEnd" /\ IsDepActor(W.actor) /\ W.res = "ok" /\ pass[W.actor].hasSnap /\ pass[W.actor].hasList
+       /\ ~pass[W.actor].apiErr /\ \A i \in DOMAIN pass[W.actor].listed : pass[W.actor].listed[i].cr.revision # 0)
+    => \A i \in DOMAIN pass[W.actor].listed :
+         LET k == pass[W.actor].listed[i].key IN
+         (k \in Keys /\ store[k].exists /\ store[k].uid = pass[W.actor].listed[i].uid /\ pass[W.actor].listed[i].cr.lifecycle # "Archived")
+         => IF pass[W.actor].snap.cr.paused
+              THEN store[k].cr.lifecycle = "Paused" /\ store[k].cr.pausedByParent
+              ELSE ~store[k].cr.pausedByParent \/ store[k].cr.lifecycle = "Archived"
+
 ---------------------------------------------------------------------------
 (* C11 no write before preflight; never outside the owner's namespace *)
 
@@ -576,6 +626,116 @@ Inv_C11_ViolationReported ==
     => /\ PE.statusWritten
        /\ CondIs(PE.status.cr, "Available", "False", "PreflightError")
        /\ W.args.requeue
+
+---------------------------------------------------------------------------
+(* C07 one ObjectSet per template, unique increasing revisions (ObjectDeployment controller) *)
+
+DepWrite == lw.valid /\ IsDepActor(W.actor) /\ IsWrite(W.ev) /\ ~W.dry /\ PR.hasSnap
+IsSetKind(kd) == kd \in {"ObjectSet", "ClusterObjectSet"}
+
+MaxRev(items) == IF items = <<>> THEN 0 ELSE
+    LET r == { items[i].cr.revision : i \in DOMAIN items } IN CHOOSE m \in r : \A x \in r : x <= m
+NewestOf(items) == items[CHOOSE i \in DOMAIN items : items[i].cr.revision = MaxRev(items)]
+
+Inv_C07_CreateJustified ==
+    (DepWrite /\ W.ev = "Create" /\ IsSetKind(W.args.body.kind))
+    => /\ PR.hasList
+       /\ ~PR.snap.cr.paused
+       /\ PR.snap.cr.phases # <<>>
+       /\ \A i \in DOMAIN PR.listed : PR.listed[i].cr.revision # 0
+       /\ (PR.listed = <<>> \/ \E i \in DOMAIN PR.listed :
+                                 /\ PR.listed[i].cr.revision = MaxRev(PR.listed)
+                                 \* "not matched": different spec, archived, or (the code's own notion) a different
+                                 \* template-hash annotation — the hash includes the collision counter, so after a
+                                 \* counter bump a spec-equal newest set no longer matches (observation O1 in DESIGN.md)
+                                 /\ (PR.listed[i].cr.tmplHash # PR.snap.cr.tmplHash \/ PR.listed[i].cr.lifecycle = "Archived"
+                                        \/ PR.listed[i].cr.hash # W.args.body.cr.hash))
+       /\ W.args.body.cr.tmplHash = PR.snap.cr.tmplHash                      \* spec equals the template
+       /\ Range(W.args.body.cr.previous) = { PR.listed[i].key : i \in DOMAIN PR.listed }
+       /\ IsControllerL(PR.snap.oid, PR.snap.uid, W.args.body.owners)
+
+\* between two template changes at most one ObjectSet is created for the deployment
+Inv_C07_AtMostOnePerTemplateEpoch == \A k \in Keys : hist.creates[k] <= 1
+
+\* revisions of the ObjectSets of one deployment are unique
+Inv_C07_RevisionsUnique ==
+    \A k1, k2 \in Keys :
+        (k1 # k2 /\ store[k1].exists /\ store[k2].exists /\ IsSetKind(store[k1].kind) /\ IsSetKind(store[k2].kind)
+           /\ DeploymentOf(store[k1]) # "" /\ DeploymentOf(store[k1]) = DeploymentOf(store[k2])
+           /\ store[k1].cr.revision # 0)
+        => store[k1].cr.revision # store[k2].cr.revision
+
+\* a revision number, when assigned, is strictly greater than those of all revisions named in `previous`
+Inv_C07_RevisionIncreasing ==
+    (lw.valid /\ IsSetActor(W.actor) /\ W.ev = "StatusUpdate" /\ W.res = "ok" /\ W.pre.cr.revision = 0 /\ W.post.cr.revision # 0)
+    => \A pk \in Range(W.post.cr.previous) : (pk \in Keys /\ store[pk].exists) => store[pk].cr.revision < W.post.cr.revision
+
+\* a name clash with an archived or different-spec ObjectSet is answered by bumping the collision counter
+Inv_C07_NoReuse ==
+    (lw.valid /\ W.ev = "PassEnd" /\ IsDepActor(W.actor) /\ pass[W.actor].hasSnap /\ pass[W.actor].clash # "" /\ W.res = "ok")
+    => LET pr == pass[W.actor]
+           c  == store[pr.clash] IN
+       (c.exists /\ (c.cr.lifecycle = "Archived" \/ c.cr.tmplHash # pr.snap.cr.tmplHash))
+          => (pr.statusWritten /\ pr.status.cr.collisions = pr.snap.cr.collisions + 1)
+
+---------------------------------------------------------------------------
+(* C08 rollouts never archive or delete what is still serving *)
+
+ListedBy(pr, oid) == pr.listed[CHOOSE i \in DOMAIN pr.listed : pr.listed[i].oid = oid]
+IsListed(pr, oid) == \E i \in DOMAIN pr.listed : pr.listed[i].oid = oid
+
+\* object keys of ObjectSet o, slices resolved through the store
+SetObjKeys(o) ==
+    UNION { Range(o.cr.phases[j].keys)
+            \cup UNION { IF o.cr.phases[j].slices[i] \in Keys THEN Range(SliceObjsInStore(o.cr.phases[j].slices[i])) ELSE {}
+                         : i \in DOMAIN o.cr.phases[j].slices }
+          : j \in DOMAIN o.cr.phases }
+
+ArchiveEv == DepWrite /\ W.ev = "Update" /\ IsSetKind(W.pre.kind) /\ W.args.body.cr.lifecycle = "Archived"
+             /\ W.pre.cr.lifecycle # "Archived" /\ IsListed(PR, W.pre.oid)
+
+Inv_C08_ArchiveOnlyPaused ==
+    ArchiveEv => CondTrue(ListedBy(PR, W.pre.oid).cr, "Paused")
+
+Inv_C08_NewestNeverArchived ==
+    ArchiveEv => ListedBy(PR, W.pre.oid).cr.revision < MaxRev(PR.listed)
+
+Inv_C08_ArchiveCondition ==
+    ArchiveEv =>
+      LET x == ListedBy(PR, W.pre.oid)
+          newer == { i \in DOMAIN PR.listed : PR.listed[i].cr.revision > x.cr.revision } IN
+      \/ \E i \in newer : CondTrue(PR.listed[i].cr, "Available")
+      \/ /\ ~CondTrue(x.cr, "Available")
+         /\ newer # {}
+         /\ LET nxt == PR.listed[CHOOSE i \in newer : \A j \in newer : PR.listed[i].cr.revision <= PR.listed[j].cr.revision] IN
+            Range(x.cr.controllerOf) \cap SetObjKeys(nxt) = {}
+
+HistLimit(pr) == IF pr.snap.cr.histLimit < 0 THEN 10 ELSE pr.snap.cr.histLimit
+
+Inv_C08_PruneOldestOnly ==
+    (DepWrite /\ W.ev = "Delete" /\ IsSetKind(W.pre.kind) /\ IsListed(PR, W.pre.oid))
+    => LET d == ListedBy(PR, W.pre.oid) IN
+       /\ d.cr.revision < MaxRev(PR.listed)
+       \* at least `limit` previous revisions (the newest one is the current revision) are not older than d
+       /\ Cardinality({ i \in DOMAIN PR.listed : PR.listed[i].cr.revision > d.cr.revision
+                                                  \/ (PR.listed[i].cr.revision = d.cr.revision /\ PR.listed[i].oid # d.oid) }) - 1
+            >= HistLimit(PR)
+
+\* handover from the outgoing revision S to the incoming (newest, not archived) revision N of the same deployment,
+\* S being N's immediate predecessor: an object N contains is never deleted by S's teardown.
+\* (With intermediate revisions that dropped the object its deletion is merely late and not flagged.)
+Inv_C08_SharedObjectNotDeleted ==
+    (CtlWrite /\ ~W.dry /\ W.res = "ok" /\ Changed(W) /\ W.ev = "Delete" /\ IsSetActor(W.actor) /\ Teardown(PR)
+       /\ W.key \in ListedInStore(PR) /\ DeploymentOf(PR.snap) # "")
+    => \A nk \in Keys :
+         (store[nk].exists /\ IsSetKind(store[nk].kind) /\ DeploymentOf(store[nk]) = DeploymentOf(PR.snap) /\ nk # PR.target
+            /\ store[nk].cr.lifecycle # "Archived" /\ ~store[nk].deleting
+            /\ ~(\E ok \in Keys : ok # nk /\ store[ok].exists /\ IsSetKind(store[ok].kind)      \* ties are C07's business
+                                   /\ DeploymentOf(store[ok]) = DeploymentOf(PR.snap) /\ store[ok].cr.revision = store[nk].cr.revision)
+            /\ \A ok \in Keys : (store[ok].exists /\ IsSetKind(store[ok].kind) /\ DeploymentOf(store[ok]) = DeploymentOf(PR.snap))
+                                   => /\ store[ok].cr.revision <= store[nk].cr.revision
+                                      /\ ~(PR.snap.cr.revision < store[ok].cr.revision /\ store[ok].cr.revision < store[nk].cr.revision))
+         => W.key \notin SetObjKeys(store[nk])
 
 Inv_C19_NoPanic == ~(lw.valid /\ W.ev \in {"Panic", "Timeout"})
 
